@@ -23,7 +23,7 @@ from .context import _get_core_defs
 from .core_defs import ALL_MESSAGE_TYPES
 from . import core_defs as cd
 
-from typing import Dict, List, Tuple, Set, Type, Union
+from typing import Dict, List, Optional, Tuple, Set, Type, Union
 from itertools import chain
 from dataclasses import dataclass, field
 from collections import defaultdict, Counter
@@ -558,11 +558,13 @@ class MessageManager(ClientLike):
             )
         )
 
+        # Modules that did not get the message. They are dealt with after the loop, so that
+        # every receiver sees this message and the notices that result from a failure
+        # (CLIENT_CLOSED, FAILED_MESSAGE) in the same order.
+        failed: List[Tuple[Module, Optional[ConnectionError]]] = []
+
         for n in range(len(subscribers)):
             module = subscribers[n]
-            # Skip subscribers that were removed while a failure earlier in this loop was handled
-            if module.conn not in self.modules:
-                continue
             if module.conn in self.wlist:
                 try:
                     if (
@@ -573,12 +575,7 @@ class MessageManager(ClientLike):
                         module.send_message(header, data)
                         module.drops = 0
                 except ConnectionError as err:
-                    self.remove_module(module)
-                    self.logger.error(
-                        f"Connection Error on write to {module!s} - {err!s}"
-                    )
-                    print("x", end="", flush=True)
-                    self.send_failed_message(module, header, time.perf_counter())
+                    failed.append((module, err))
             elif module.is_logger:
                 # Block until logger is ready
                 select.select([], [module.conn], [], None)
@@ -587,20 +584,34 @@ class MessageManager(ClientLike):
                     module.send_message(header, data)
                     module.drops = 0
                 except ConnectionError as err:
-                    self.remove_module(module)
-                    self.logger.error(
-                        f"Connection Error on write to {module!s} - {err!s}"
-                    )
-                    print("x", end="", flush=True)
-                    # this could result in infinite recursion,
-                    # this is prevented by send_failed_message returning if
-                    # failed message type is failed_message.
-                    self.send_failed_message(module, header, time.perf_counter())
+                    failed.append((module, err))
 
             else:
                 module.drops += 1
-                print("x", end="", flush=True)
-                self.send_failed_message(module, header, time.perf_counter())
+                failed.append((module, None))
+
+        self.report_failed_sends(failed, header)
+
+    def report_failed_sends(
+        self,
+        failed: List[Tuple[Module, Optional[ConnectionError]]],
+        header: MessageHeader,
+    ):
+        """Remove modules whose connection failed and send FAILED_MESSAGE for each missed delivery
+
+        Args:
+            failed: (module, error) pairs. error is None if the module was not ready (dropped message)
+            header (MessageHeader): Header of the message that was not delivered
+        """
+        for module, err in failed:
+            if err is not None and module.conn in self.modules:
+                self.remove_module(module)
+                self.logger.error(f"Connection Error on write to {module!s} - {err!s}")
+            print("x", end="", flush=True)
+            # this could result in infinite recursion,
+            # this is prevented by send_failed_message returning if
+            # failed message type is failed_message.
+            self.send_failed_message(module, header, time.perf_counter())
 
     def send_to_loggers(
         self,
@@ -613,10 +624,9 @@ class MessageManager(ClientLike):
             header (MessageHeader): Message header to send
             payload (Union[bytes, MessageData]): Message data to send
         """
-        # Iterate over a copy, a failed send removes the module from the set
-        for module in list(self.logger_modules):
-            if module.conn not in self.modules:
-                continue
+        failed: List[Tuple[Module, Optional[ConnectionError]]] = []
+
+        for module in self.logger_modules:
             if module.conn not in self.wlist:
                 # Block until logger is ready
                 select.select([], [module.conn], [], None)
@@ -624,13 +634,9 @@ class MessageManager(ClientLike):
                 module.send_message(header, payload)
                 module.drops = 0
             except ConnectionError as err:
-                self.remove_module(module)
-                self.logger.error(f"Connection Error on write to {module!s} - {err!s}")
-                print("x", end="", flush=True)
-                # this could result in infinite recursion,
-                # this is prevented by send_failed_message returning if
-                # failed message type is failed_message.
-                self.send_failed_message(module, header, time.perf_counter())
+                failed.append((module, err))
+
+        self.report_failed_sends(failed, header)
 
     def send_message(
         self,
